@@ -291,6 +291,18 @@ class CallMixin:
         if isinstance(o, Ref):
             h = st.obj(o)
             if h.kind == 'obj':
+                setter = None
+                if isinstance(h.cls, ClassInfo):
+                    for ci in self.repo.mro(h.cls):
+                        if attr in getattr(ci, 'setters', {}):
+                            setter = ci.setters[attr]
+                            break
+                if setter is not None:
+                    # assignment to a property with a setter: the setter body runs
+                    out = []
+                    for r in self.call_repo_function(setter, o, [v], {}, st, line):
+                        out.append((NORMAL, r.st) if r.kind == 'ok' else (raise_out(r.val), r.st))
+                    return out
                 mon = self.monitor_of(h, field=attr)
                 if mon is not None and o.oid in st.shared and attr in mon.fields and not self.holds_lock(st, o, mon):
                     self.oblige(st, f'lock.write_guarded.{attr}@{line}', False, kind='lock', line=line,
@@ -761,6 +773,9 @@ class CallMixin:
             return True
         # properties run the real code like any attribute read; call-free straight-line getters likewise
         if any(isinstance(d, ast.Name) and d.id == 'property' for d in finfo.node.decorator_list):
+            return True
+        # ... and property setters (an attribute store runs the setter's real code)
+        if any(isinstance(d, ast.Attribute) and d.attr == 'setter' for d in finfo.node.decorator_list):
             return True
         if body and all(isinstance(x, (ast.Assign, ast.Return)) for x in body) and not any(
                 isinstance(n, (ast.Call, ast.Yield, ast.Await)) for x in body for n in ast.walk(x)) and all(
